@@ -82,6 +82,39 @@ func VerifC01_PartialEqualsFull() {
 	case 5: // the default certificate gets new content (same Secret, same file name)
 		w.secrets["system/default"] = "v2"
 		link(convtypes.ResourceSecret, "system/default")
+	case 6: // create + delete of i2 inside one batch
+		nd.Assume(!hasI2)
+		i2 = zzIngress("i2", 2, "i2new")
+		changed.IngressesAdd = []*networking.Ingress{i2}
+		changed.IngressesDel = []*networking.Ingress{i2}
+		link(convtypes.ResourceIngress, "default/i2")
+	case 7: // delete + create of i2 inside one batch
+		nd.Assume(hasI2)
+		old := i2
+		i2 = zzIngress("i2", 3, "i2new")
+		w.ings[1] = i2
+		changed.IngressesDel = []*networking.Ingress{old}
+		changed.IngressesAdd = []*networking.Ingress{i2}
+		link(convtypes.ResourceIngress, "default/i2")
+	case 8: // create + update of i2 inside one batch
+		nd.Assume(!hasI2)
+		// the version seen by the create event: a plain rule; the update replaces it
+		first := zzIngress("i2", 2, "none")
+		first.Spec.Rules = []networking.IngressRule{{Host: zzHosts[0]}}
+		i2 = zzIngress("i2", 2, "i2new")
+		w.ings = append(w.ings, i2)
+		changed.IngressesAdd = []*networking.Ingress{first}
+		changed.IngressesUpd = []*networking.Ingress{i2}
+		link(convtypes.ResourceIngress, "default/i2")
+	case 9: // i1 deleted: whatever i2 declared in duplicate changes owner
+		w.ings = w.ings[1:]
+		changed.IngressesDel = []*networking.Ingress{i1}
+		link(convtypes.ResourceIngress, "default/i1")
+	case 10: // i1 updated
+		i1 = zzIngress("i1", 1, "i1new")
+		w.ings[0] = i1
+		changed.IngressesUpd = []*networking.Ingress{i1}
+		link(convtypes.ResourceIngress, "default/i1")
 	}
 	c1 := sys.converter(changed)
 	if c1.NeedFullSync() {
